@@ -24,12 +24,13 @@ Python                                               model
 `overlaps_spans(spans, a, b)`                        `overlaps`
 
 Two variants are kept side by side:
-* `preprocess`  — the code as it is in /repo now (after the two `fix:` commits): the rewritten imports
+* `preprocess`  — the code as it is in /repo now (after the three `fix:` commits): the rewritten imports
                   of one line stay on ONE line joined by "; "; a line whose first non-blank character
                   lies in a literal is not an import line; a match of a dotted name that overlaps a
-                  literal span is left as it is;
+                  literal span is left as it is; the trailing comment of an import line is set aside
+                  before the names are extracted and put back behind the rewritten imports;
 * `preprocess0` — the pinned commit (frozen; documents the findings): one output line per imported
-                  name, no notion of literals.
+                  name, no notion of literals (a trailing comment becomes part of the last name).
 
 What neither variant knows is scopes: after `import a.b` EVERY later occurrence of `a.b` in the file
 is rewritten (open finding C12/import-rewrite-scope-blind).
@@ -134,11 +135,30 @@ def addKeys (keys : List Line) (names : List Line) : List Line :=
 def isImportLine (spans : Spans) (line : Line) : Bool :=
   importKw.isPrefixOf (lstrip line) && !overlaps spans (leading line).length ((leading line).length + 1)
 
+/-- column of the trailing comment of an import line: the first literal span that starts with `#`
+(`line[span_start:span_start + 1] == '#'`). -/
+def commentStart (spans : Spans) (line : Line) : Option Nat :=
+  (spans.find? (fun s => (line.drop s.1).head? == some '#')).map (·.1)
+
+/-- the import line without its trailing comment and the blanks in front of it
+(`line[:span_start].rstrip()`); the whole line when there is no comment. -/
+def importPart (spans : Spans) (line : Line) : Line :=
+  match commentStart spans line with
+  | some c => rstrip (line.take c)
+  | none => line
+
+/-- what is put back behind the rewritten imports: blanks + comment (`line[len(import_part):]`). -/
+def trailingComment (spans : Spans) (line : Line) : Line :=
+  match commentStart spans line with
+  | some _ => line.drop (importPart spans line).length
+  | none => []
+
 /-- one iteration of the loop: new key list and the ONE output line. -/
 def stepLine (spans : Spans) (keys : List Line) (line : Line) : List Line × Line :=
   if isImportLine spans line then
-    let names := importNames (lstrip line)
-    (addKeys keys names, leading line ++ joinWith sepSemi (names.map newImport))
+    let names := importNames (lstrip (importPart spans line))
+    (addKeys keys names,
+     leading line ++ joinWith sepSemi (names.map newImport) ++ trailingComment spans line)
   else (keys, rewriteLine keys (overlaps spans) line)
 
 def run (keys : List Line) : List Line → List Spans → List Line
